@@ -41,6 +41,7 @@ type Cfg struct {
 	RegW     bool     `json:"regw"` // server configured with an AEAD registration wrapper
 	CertKeys []string `json:"certKeys"`
 	Unix     bool     `json:"unix"`    // listen on a unix socket instead of tcp
+	Nide     bool     `json:"nide"`    // node-id lookups that find nothing answer with an empty set instead of not-found
 	LifeSec  int      `json:"lifeSec"` // root lifetime in seconds (0: library default); short lifetimes enable RotateWait
 }
 
@@ -184,6 +185,7 @@ func Run(bh Behaviour, seed int64) ([]Line, error) {
 		return nil, err
 	}
 	defer srv.Close()
+	srv.W.Rec.NidEmptyOK = bh.Cfg.Nide
 	r := &run{srv: srv, cfg: bh.Cfg, prev: map[string]*prev{}, rng: mrand.New(mrand.NewSource(world.Uint64Seed(seed, "hsd/"+bh.Id)))}
 	cfgMap := map[string]any{"nidl": bh.Cfg.Nidl, "base": bh.Cfg.Base}
 	var lines []Line
@@ -420,6 +422,8 @@ func (r *run) connect(op map[string]any, ln *Line) {
 			c.Nid = "N-" + c.K
 		case "other":
 			c.Nid = "N-" + c.Ck
+		case "bogus":
+			c.Nid = "N-nobody"
 		}
 		res, cerr := srv.Connect(c)
 		r.record(ln, res)
